@@ -85,7 +85,7 @@ func (x *Exec) wfValDef() string {
 }
 
 // globalAxioms: facts about type ids etc. known at emission time.
-func (x *Exec) globalAxioms() string {
+func (x *Exec) globalAxioms(em *Emitter) string {
 	var sb strings.Builder
 	for i, T := range x.prog.tidList {
 		fmt.Fprintf(&sb, "(assert (= (kindOfTid %d) %s))\n", i+1, x.GoInt(int64(kindOfType(T))).Op)
@@ -106,6 +106,11 @@ func (x *Exec) globalAxioms() string {
 	sort.Strings(names)
 	for _, n := range names {
 		it := x.ifaceUsed[n]
+		if em != nil && !em.decl["f:"+n] {
+			// (a stand-alone script for an early obligation may not mention the predicate yet)
+			em.decl["f:"+n] = true
+			fmt.Fprintf(&sb, "(declare-fun %s (Int) Bool)\n", quoteSym(n))
+		}
 		for i, T := range x.prog.tidList {
 			fmt.Fprintf(&sb, "(assert (= (%s %d) %v))\n", quoteSym(n), i+1, types.Implements(T, it))
 		}
@@ -182,7 +187,7 @@ func (x *Exec) incrementalScriptFor4(timeoutMs int, prop, class string, only, sk
 		em.decl["s:"+n] = true
 	}
 	em.Declare(append(append([]*Term{}, ts...), x.strLitTerms()...))
-	sb.WriteString(x.globalAxioms())
+	sb.WriteString(x.globalAxioms(em))
 	em.Define(ts)
 	var order []*Obligation
 	nf := 0
@@ -241,7 +246,7 @@ func (x *Exec) standaloneScript(o *Obligation, solver string, model bool) string
 		em.decl["s:"+n] = true
 	}
 	em.Declare(append(append([]*Term{}, ts...), x.strLitTerms()...))
-	sb.WriteString(x.globalAxioms())
+	sb.WriteString(x.globalAxioms(em))
 	em.Define(ts)
 	for _, f := range o.Facts {
 		sb.WriteString("(assert " + em.Str(f) + ")\n")
@@ -438,7 +443,7 @@ func (x *Exec) vacuityCheck(opts SolveOpts, safe string) bool {
 	}
 	emitMu.Lock()
 	em.Declare(append(append([]*Term{}, ts...), x.strLitTerms()...))
-	sb.WriteString(x.globalAxioms())
+	sb.WriteString(x.globalAxioms(em))
 	em.Define(ts)
 	for _, f := range ts {
 		sb.WriteString("(assert " + em.Str(f) + ")\n")
@@ -551,7 +556,7 @@ func (x *Exec) FindVacuity(dir string) string {
 			em.decl["s:"+nme] = true
 		}
 		em.Declare(append(append([]*Term{}, ts...), x.strLitTerms()...))
-		sb.WriteString(x.globalAxioms())
+		sb.WriteString(x.globalAxioms(em))
 		em.Define(ts)
 		for _, f := range ts {
 			sb.WriteString("(assert " + em.Str(f) + ")\n")
@@ -602,7 +607,7 @@ func (x *Exec) quickUnsat(extra *Term) bool {
 		em.decl["s:"+n] = true
 	}
 	em.Declare(append(append([]*Term{}, ts...), x.strLitTerms()...))
-	sb.WriteString(x.globalAxioms())
+	sb.WriteString(x.globalAxioms(em))
 	em.Define(ts)
 	for _, f := range ts {
 		sb.WriteString("(assert " + em.Str(f) + ")\n")
